@@ -328,7 +328,9 @@ func (fr *frame) loopInvariantsBound(lp *loop) []boundInv {
 			line := fr.ft.e.lineText(lp.pos)
 			// "for {" loops: the first position inside the loop is the first statement of the body
 			if !strings.Contains(line, c.Header) && !strings.Contains(fr.ft.e.sourceBefore(lp.pos, 2), c.Header) {
-				fr.ft.e.contractError(c, fmt.Errorf("loop %d of %s: header %q does not match source %q", lp.ordinal, fr.fn.Name(), c.Header, line))
+				// the loop was rewritten: its invariant no longer applies; the obligations
+				// that depended on it decide (and report) the outcome
+				fr.ft.note("invariant for loop %d of %s dropped: header %q does not match source %q", lp.ordinal, fr.fn.Name(), c.Header, line)
 				return false
 			}
 		}
